@@ -458,37 +458,60 @@ def bytes_method(I_, recv, name, args, kws, st, ctx, k, node):
   if name == "split" and len(args) == 2 and args[1] == 1 and fully_concrete(args[0]) and len(args[0]) == 1:
     sep = as_sbytes(args[0]).concrete()[0]
     n = s.fixed_length()
-    if n is None or n > 64:
+    if n is None or n > 4096:
       raise Unsupported("split of symbolic-length text")
-    # position of the first separator: case split 0..n-1, or none
-    results = []
+    # skip leading chunks that provably do not contain the separator (one query per chunk)
+    start = 0
+    for c in s.chunks:
+      l = sb.chunk_len(c)
+      if not isinstance(l, int):
+        break
+      if c[0] == "lit":
+        j = c[1].find(bytes([sep]))
+        if j >= 0:
+          # everything before is separator-free: the first separator is exactly here
+          p0 = start + j
+          a = sb.slice_bytes(s, 0, p0, st)
+          b = sb.slice_bytes(s, p0 + 1, n, st)
+          a.is_str = b.is_str = s.is_str
+          return k(st, st.alloc("list", list, [norm_bytes(a), norm_bytes(b)]))
+        start += l
+        continue
+      cs = [zint(sb.byte_at(s, start + i, st)) != sep for i in range(l)]
+      if l <= 1024 and st.entails(z3.And(*cs) if cs else True, "split-scan"):
+        start += l
+        continue
+      break
+    if n - start > 80:
+      raise Unsupported("split: separator position not determined within 80 bytes")
+    bts = [sb.byte_at(s, i, st) for i in range(start, n)]
     def none_case(st2):
-      for i in range(n):
-        st2.add(zint(sb.byte_at(s, i, st2)) != sep)
+      for b_ in bts:
+        st2.add(zint(b_) != sep)
       return k(st2, st2.alloc("list", list, [norm_bytes(s)]))
-    bts = [sb.byte_at(s, i, st) for i in range(n)]
-    if all(isinstance(b, int) for b in bts):
-      raise AssertionError("concrete case handled natively")
     def pos_case(p, st2):
       if p >= n:
         return none_case(st2)
-      cond = concretize_(zand(*([zint(bts[i]) != sep for i in range(p)] + [zint(bts[p]) == sep])))
-      if not st2.feasible(cond):
+      cond = concretize_(zand(*([zint(bts[i - start]) != sep for i in range(start, p)] + [zint(bts[p - start]) == sep])))
+      if cond is False or not st2.feasible(cond):
         return pos_case(p + 1, st2)
-      s2 = st2.copy()
+      rest_possible = p + 1 <= n and (cond is not True) and st2.feasible(znot(cond))
+      s2 = st2.copy() if rest_possible else st2
       s2.add(cond)
       a = sb.slice_bytes(s, 0, p, s2)
       b = sb.slice_bytes(s, p + 1, n, s2)
       a.is_str = b.is_str = s.is_str
       k(s2, s2.alloc("list", list, [norm_bytes(a), norm_bytes(b)]))
-      st2.add(z3.Not(cond))
+      if not rest_possible:
+        return
+      st2.add(znot(cond))
       return pos_case(p + 1, st2)
-    return pos_case(0, st)
+    return pos_case(start, st)
   if name == "replace" and len(args) == 2 and fully_concrete(args) and len(args[0]) == 1 and len(args[1]) == 0:
     # deleting all occurrences of one byte: result has length = number of other bytes
     x = as_sbytes(args[0]).concrete()[0]
     n = s.fixed_length()
-    if n is None or n > 64:
+    if n is None or n > 2048:
       axiom("bytes.replace(b, b'') on symbolic-length data: opaque result no longer than the input")
       r = opaque_bytes(st, "repl")
       st.add(zint(r.length()) <= zint(s.length()))
